@@ -90,3 +90,28 @@ Definition has_metadata (r : outcome) : option bool :=
 
 End Api.
 Arguments sampler : clear implicits.
+
+(* A process that holds SEVERAL samplers (each with its own const generic D) and calls them in any order, e.g. from
+   several threads: a call names the sampler it is made on.  Nothing is shared between samplers: the crate has no
+   process-wide state (no static, no thread-local; the check's static scan and its concurrent runs watch that). *)
+Section Pool.
+Context {C T : Type} (SC : Scalar C C) (S : Scalar C T).
+Variable igam_impl : C -> C -> nat -> C -> res C.
+Variable c_is_value : C -> bool.
+
+Definition pool := list (nat * sampler C).        (* (D, sampler) *)
+
+Definition answer_pool (p : pool) (k : nat) (o : op (C:=C) (T:=T)) : option (out (C:=C) (T:=T)) :=
+  match nth_error p k with
+  | Some (d, s) => Some (answer SC S igam_impl c_is_value d s o)
+  | None => None
+  end.
+
+Fixpoint run_pool (p : pool) (calls : list (nat * op (C:=C) (T:=T))) : pool * list (option (out (C:=C) (T:=T))) :=
+  match calls with
+  | [] => (p, [])
+  | (k, o) :: rest =>
+      let a := answer_pool p k o in                 (* &self: the pool is handed on unchanged *)
+      let (p', outs) := run_pool p rest in (p', a :: outs)
+  end.
+End Pool.
